@@ -38,7 +38,7 @@ from ..core import Ctx, HarnessError, Violation, digest, hyp_run, shard_run
 PID = "C10"
 LEVEL = "exploration"
 EXHAUSTIVE = False
-RULE = ("operation lists over add(prefix in 2, number in 0..3, timeout in {0.1,1,5}, on_timeout behaviour in "
+RULE = ("operation lists over add(prefix in 2, number in 0..3, timeout in {0.1,1,5,700,2000}, on_timeout behaviour in "
         "{nothing, pop another, pop itself, add another, re-add own identity}, tied future in {none, None, value, "
         "exception}, duplicate flavour) / add_random (scripted collisions with every claimed number first) / pop / "
         "get / has (by name or class) / retrieve_cache handler call / claim of the k-th earliest pending request / register_future / advance to the k-th pending "
@@ -66,7 +66,7 @@ ASSUMPTIONS = [
 
 EPS = 1e-3
 TOL = 1e-4
-TIMEOUTS = [0.1, 1.0, 5.0]
+TIMEOUTS = [0.1, 1.0, 5.0, 700.0, 2000.0]     # the long ones outlast the task manager's own housekeeping rounds
 PT_TIMEOUTS = [0.0, 0.1, 4.0]
 PREFIXES = ["pa", "pb"]
 FILTERS = [None, ["A"], ["B"], ["A", "B"], ["RA"], ["NumberCache"], ["RandomNumberCache"], ["B", "RandomNumberCache"]]
@@ -796,6 +796,9 @@ AT = ["at", 0, 0, ["pop", "pa", 0, 0]]
 SH, CL, PT = ["shutdown"], ["clear"], ["pt", 0, 0, 1]
 RT = ["retrieve", "pa", 0, 0]
 RE = ["readd", 0]
+AL = ["add", "pa", 1, 4, ["none"], 1, 0]       # 2000 s
+AM = ["add", "pb", 2, 3, ["none"], 2, 0]       # 700 s
+SL = ["sleep", 250.0]
 
 ALPHABETS = {
     "schedule": [A0, A1, A2, P0, V0, VM, VP, AT],
@@ -803,6 +806,7 @@ ALPHABETS = {
     "reuse": [A0, RE, P0, V0, VM, VP, CL, SH],
     "schedule-core": [A0, A1, P0, V0, VP, AT],
     "lifecycle-core": [A0, A3, SH, CL, PT, V0],
+    "long": [AL, AM, A0, SL, P0, V0, VP, SH],
 }
 ADDS = ("add", "addr")
 
@@ -835,7 +839,7 @@ def _strategies():
     from hypothesis import strategies as st
     prefix = st.sampled_from(PREFIXES)
     number = st.integers(0, 3)
-    ti = st.sampled_from([0, 1, 1, 2])
+    ti = st.sampled_from([0, 1, 1, 2, 3, 4])
     beh = st.one_of(st.just(["none"]), st.just(["none"]), st.tuples(st.just("pop"), prefix, number).map(list),
                     st.just(["popself"]), st.tuples(st.just("add"), prefix, number, ti).map(list),
                     st.tuples(st.just("addself"), ti).map(list))
@@ -851,7 +855,7 @@ def _strategies():
     settle = st.tuples(st.just("settle"), st.integers(0, 30), st.integers(0, 1)).map(list)
     eps = st.sampled_from([-1, 0, 0, 1])
     adv = st.tuples(st.just("adv"), st.integers(0, 5), eps).map(list)
-    sleep = st.tuples(st.just("sleep"), st.sampled_from([0, 0.1, 0.4, 0.5, 0.9, 1.0, 4.0, 5.0])).map(list)
+    sleep = st.tuples(st.just("sleep"), st.sampled_from([0, 0.1, 0.4, 0.5, 0.9, 1.0, 4.0, 5.0, 250.0, 950.0])).map(list)
     inner = st.one_of(pop, popc, popd, popd, popd, retrieve, add, get, st.just(["clear"]))
     at = st.tuples(st.just("at"), st.integers(0, 5), eps, inner).map(list)
     pt = st.tuples(st.just("pt"), st.integers(0, len(FILTERS) - 1), st.integers(0, 2), st.integers(1, 3)).map(list)
@@ -879,10 +883,10 @@ def _random_shard(ctx: Ctx, shard: int, nshards: int, n: int) -> None:
 
 def run(ctx: Ctx) -> None:
     if ctx.quick:
-        plan = [("schedule", 6), ("lifecycle", 6), ("reuse", 6)]
+        plan = [("schedule", 6), ("lifecycle", 6), ("reuse", 6), ("long", 4)]
         n = 700
     else:
-        plan = [("schedule", 7), ("lifecycle", 7), ("reuse", 8), ("schedule-core", 8), ("lifecycle-core", 8)]
+        plan = [("schedule", 7), ("lifecycle", 7), ("reuse", 8), ("schedule-core", 8), ("lifecycle-core", 8), ("long", 6)]
         n = 12000
     shard_run(ctx, _exhaustive_shard, extra=(plan,))
     shard_run(ctx, _random_shard, extra=(n,))
